@@ -11,6 +11,8 @@ fields(
         "File.pos": "int",
         "File.fpath": "str",
         "File.mode": "str",
+        "File.written": "list[Element]",
+        "File.raw": "list[str]",
         # hasher.py
         "Hasher.hasher": "LibHasher",
         "DirectoryHashContext.hash_format": "str",
@@ -82,6 +84,15 @@ fields(
         "MHLAuthor.role": "str?",
         # ignore.py
         "MHLIgnoreSpec._ignore_list": "list[str]",
+        # XML infoset model
+        "Element.tag": "str",
+        "Element.text": "str?",
+        "Element.attrib": "dict[str,str]",
+        "Element.children": "list[Element]",
+        # cli/update.py
+        "Updater.latest_version": "version?",
+        "Updater.finished": "bool",
+        "Updater.daemon": "bool",
         # generator.py
         "MHLGenerationCreationSession.root_history": "MHLHistory",
         "MHLGenerationCreationSession.new_hash_lists": "defaultdict[MHLHistory,MHLHashList]",
